@@ -266,6 +266,41 @@ class Interp:
         # message text: opaque (its characters are never part of a claim)
         return Fmt("fstring", tuple(self.ev(v.value) for v in n.values if isinstance(v, ast.FormattedValue)))
 
+    def e_Lambda(self, n):
+        params = [a.arg for a in n.args.args]
+        if n.args.vararg or n.args.kwarg or n.args.kwonlyargs or n.args.defaults:
+            raise Unsupported("lambda with defaults/varargs")
+
+        def call(*vals):
+            if len(vals) != len(params):
+                raise Unsupported("lambda arity")
+            env = dict(self.env)
+            env.update(zip(params, vals))
+            return Interp(self.ctx, env).ev(n.body)
+
+        return call
+
+    def e_ListComp(self, n):
+        if len(n.generators) != 1 or n.generators[0].is_async:
+            raise Unsupported("comprehension with several generators")
+        g = n.generators[0]
+        seq = self.ev(g.iter)
+        if not isinstance(seq, (list, tuple)):
+            raise Unsupported("comprehension over " + type(seq).__name__)
+        out = []
+        saved = dict(self.env)
+        for item in list(seq):
+            self.assign(g.target, item)
+            if all(self.ctx.branch(self.ev(c)) for c in g.ifs):
+                out.append(self.ev(n.elt))
+        # comprehension variables do not leak (python 3 scoping)
+        for k in list(self.env):
+            if k not in saved:
+                del self.env[k]
+            else:
+                self.env[k] = saved[k] if k in [x.id for x in ast.walk(g.target) if isinstance(x, ast.Name)] else self.env[k]
+        return out
+
     def e_IfExp(self, n):
         return self.ev(n.body) if self.ctx.branch(self.ev(n.test)) else self.ev(n.orelse)
 
@@ -280,6 +315,16 @@ class Interp:
             f = self.ev(n.func)
             if f is math.isclose and all(k.arg in ("rel_tol", "abs_tol") for k in n.keywords):
                 return self.math_isclose(*args, **{k.arg: self.ev(k.value) for k in n.keywords})
+            if fname in ("min", "max") and len(args) == 1 and [k.arg for k in n.keywords] == ["key"] and isinstance(args[0], (list, tuple)) and len(args[0]) > 0:
+                # python: the FIRST element whose key is strictly smaller (larger) than all before it
+                keyf = self.ev(n.keywords[0].value)
+                best = args[0][0]
+                kb = keyf(best)
+                for x in args[0][1:]:
+                    kx = keyf(x)
+                    if self.ctx.branch(self.cmp(ast.Lt() if fname == "min" else ast.Gt(), kx, kb)):
+                        best, kb = x, kx
+                return best
             raise Unsupported("keyword call")
         if fname == "round" and len(args) == 1:
             if is_sym(args[0]):
@@ -410,6 +455,20 @@ class Interp:
 
     def s_Continue(self, s):
         raise _Continue()
+
+    def s_For(self, s):
+        """for over a concrete Python list/tuple (its elements may be symbolic): unrolled"""
+        seq = self.ev(s.iter)
+        if not isinstance(seq, (list, tuple)):
+            raise Unsupported("for over " + type(seq).__name__)
+        if s.orelse:
+            raise Unsupported("for-else")
+        for item in list(seq):
+            self.assign(s.target, item)
+            try:
+                self.run(s.body)
+            except _Continue:
+                continue
 
     def s_Pass(self, s):
         return
